@@ -1,6 +1,7 @@
 package main
 
 import (
+	"go/token"
 	"fmt"
 	"go/ast"
 	"go/types"
@@ -365,6 +366,64 @@ func ruleR16_1(w *World, r *Report) {
 		}
 		r.Check(deferred && plain == "", fnName(f)+"/recover is called by the deferred function itself", u.Pos(rec.Pos()), "deferred directly",
 			"recover() is called in "+fnName(f)+", which is "+map[bool]string{true: "also ", false: ""}[deferred]+"called as an ordinary function (from "+plain+"): recover only stops a panic when the deferred function calls it directly, so the panic escapes and ends the server process")
+	}
+	// (e) a recovered panic always becomes the handler's error: from the edge "recover() != nil" every path stores
+	// an error into the handler (otherwise the request is answered like a success with the request's own checkpoint)
+	if fin != nil {
+		for _, b := range fin.Blocks {
+			if len(b.Instrs) == 0 {
+				continue
+			}
+			ifi, isIf := b.Instrs[len(b.Instrs)-1].(*ssa.If)
+			if !isIf {
+				continue
+			}
+			l := normLit(condEdge{ifi.Cond, true})
+			if l.Kind != "cmp" || (l.Op != token.NEQ && l.Op != token.EQL) {
+				continue
+			}
+			rc, isCall := loadSource(l.X).(*ssa.Call)
+			if !isCall {
+				continue
+			}
+			if bi, isB := rc.Call.Value.(*ssa.Builtin); !isB || bi.Name() != "recover" {
+				continue
+			}
+			entry := b.Succs[0]
+			if l.Op == token.EQL {
+				entry = b.Succs[1]
+			}
+			// the recovered branch merges with the normal flow: look only at the blocks the entry dominates
+			set := false
+			var walk func(x *ssa.BasicBlock, seen map[*ssa.BasicBlock]bool) bool
+			walk = func(x *ssa.BasicBlock, seen map[*ssa.BasicBlock]bool) bool {
+				if seen[x] {
+					return true
+				}
+				seen[x] = true
+				for _, in := range x.Instrs {
+					if st, ok := in.(*ssa.Store); ok && strings.HasSuffix(canonName(st.Addr), ".err") {
+						if c, isC := st.Val.(*ssa.Const); !isC || c.Value != nil {
+							return true
+						}
+					}
+				}
+				if !entry.Dominates(x) && x != entry {
+					return false // left the recovered branch without having set the error
+				}
+				if len(x.Succs) == 0 {
+					return false
+				}
+				for _, s2 := range x.Succs {
+					if !walk(s2, seen) {
+						return false
+					}
+				}
+				return true
+			}
+			set = walk(entry, map[*ssa.BasicBlock]bool{})
+			r.Check(set, "PushPullHandler.finalize/recovered panic becomes the error", u.Pos(ifi.Pos()), "its.err set on every path of the recover branch", "after a recovered panic there is a path on which the handler's error is not set: the request is answered without the error bit, with the request's own checkpoint and no operations; the client takes it for an acknowledgement and never sends the operations again")
+		}
 	}
 	if fin != nil {
 		own := false
